@@ -346,6 +346,23 @@ class AEnv:
         if op == "np.sqrt":
             t = self.need(a[0])
             return AT([ax.relabel(lambda l: m_pow(l, Fraction(1, 2))) for ax in t.axes], m_pow(t.scalar, Fraction(1, 2)), t.zero)
+        if (op == "np.sum" and v.kwargs.get("axis") is not None) or (op == "mcall" and len(a) >= 2 and a[1] == "sum" and (v.kwargs.get("axis") is not None or len(a) > 2)):
+            # a sum over named axes: the remaining axes keep their types
+            t = self.need(a[0])
+            k = v.kwargs.get("axis", a[2] if (op == "mcall" and len(a) > 2) else None)
+            kk_ = k if isinstance(k, (tuple, list)) else (k,)
+            if not all(isinstance(q, int) and not isinstance(q, bool) for q in kk_):
+                raise _Unknown("sum over a non-static axis")
+            ks = {q % t.rank for q in kk_}
+            if len(ks) != len(kk_):
+                raise _Unknown("sum over a repeated axis")
+            src = a[0]
+            if isinstance(src, T.Term) and src.op == "jac_apply" and len(ks) >= 2:
+                red = [t.axes[i] for i in sorted(ks)]
+                if any(same_size(x_.size, y_.size) for i_, x_ in enumerate(red) for y_ in red[i_ + 1:]):
+                    # d f_i^k / d x_j^l summed over k AND l adds every cross block (k != l); the sum 'over dimensions' pairs them (a trace)
+                    self.err("two axes of a Jacobian of equal size are summed independently (a trace pairs them)", v, f"axes {sorted(ks)} of {t}")
+            return AT([ax for i, ax in enumerate(t.axes) if i not in ks], t.scalar)
         if op == "np.sum":
             t = self.need(a[0])
             for ax in t.axes:
